@@ -1,7 +1,7 @@
 (* C19: the hypotheses of the theorems are satisfiable by non-trivial values, and the refutation
    witnesses in full. *)
 From Coq Require Import List NArith Bool.
-From Gv Require Import lib.Bytes C19.Model C19.Spec C19.Causes C19.ProofsBase C19.Proofs.
+From Gv Require Import lib.Bytes C19.Model C19.ModelV0 C19.Spec C19.Causes C19.ProofsBase C19.Proofs.
 Import ListNotations.
 Open Scope N_scope.
 
@@ -26,14 +26,33 @@ Example ex_partial_gws :
       [OMsg MError 2]; [OMsg MConnError 0]; []; [OMsg MData 1]; [OMsg MComplete 1]; [OMsg MKa 0]; []].
 Proof. vm_compute. repeat split; reflexivity. Qed.
 
+(* the partial theorems now cover what used to be findings: complete for ids that are not
+   running, results arriving after the client completed *)
+Definition ex_tws_formerly_bad : list input :=
+  [CComplete 4; CInit INone; CSubscribe 1 PQuery; CSubscribe 2 PSub; CComplete 1; ERet 0 RData false;
+   CComplete 2; EFlush 1; ERet 1 RErr false; CComplete 2; CSubscribe 2 PQuery; ERet 2 RData false].
+Example ex_partial_tws_formerly_bad :
+  causes_of TWS ex_tws_formerly_bad = [] /\ monitor_accepts TWS ex_tws_formerly_bad (run_outs TWS ex_tws_formerly_bad) = true
+  /\ run_outs TWS ex_tws_formerly_bad =
+     [[]; [OMsg MAck 0]; []; []; [OMsg MComplete 1]; []; [OMsg MComplete 2]; []; []; []; [];
+      [OMsg MNext 2; OMsg MComplete 2]]
+  /\ causes_of_v0 TWS ex_tws_formerly_bad = [KStopUnknown; KEmitAfterCancel; KEmitAfterCancel; KEmitAfterCancel; KStopUnknown].
+Proof. vm_compute. repeat split; reflexivity. Qed.
+
 (* the refutation witnesses, with the model's outputs *)
-Example ex_refuted_tws_query_after_complete :
-  run_outs TWS w_tws_emit_after_cancel = [[OMsg MAck 0]; []; [OMsg MComplete 1]; [OMsg MNext 1; OMsg MComplete 1]].
-Proof. reflexivity. Qed.
-Example ex_refuted_tws_complete_before_init : run_outs TWS w_tws_stop_before_init = [[OMsg MComplete 1]].
-Proof. reflexivity. Qed.
 Example ex_refuted_tws_sub_error : run_outs TWS w_tws_sub_error = [[OMsg MAck 0]; []; [OMsg MError 1]; [OMsg MNext 1]].
 Proof. reflexivity. Qed.
+Example ex_refuted_tws_sub_error_id_taken :
+  run_outs TWS w_tws_sub_error_id_taken = [[OMsg MAck 0]; []; [OMsg MError 1]; [OClose 4409]].
+Proof. reflexivity. Qed.
+(* historical *)
+Example ex_refuted_v0_tws_query_after_complete :
+  run_outs_v0 TWS w_tws_emit_after_cancel = [[OMsg MAck 0]; []; [OMsg MComplete 1]; [OMsg MNext 1; OMsg MComplete 1]]
+  /\ run_outs TWS w_tws_emit_after_cancel = [[OMsg MAck 0]; []; [OMsg MComplete 1]; []].
+Proof. split; reflexivity. Qed.
+Example ex_refuted_v0_tws_complete_before_init :
+  run_outs_v0 TWS w_tws_stop_before_init = [[OMsg MComplete 1]] /\ run_outs TWS w_tws_stop_before_init = [[]].
+Proof. split; reflexivity. Qed.
 
 (* nothing_after_close / prescribed closes / no operation before init: reachable states of each kind *)
 Example ex_closed_state : s_closed (run TWS [CInit INone; CInit INone]) = true
